@@ -301,6 +301,29 @@ structure RunResult where
   tree : Tree
   stdout : Bytes := []
 
+/-- `path.Ext(name) == ""`: no dot in the last path element -/
+def noExt (name : Bytes) : Bool := !((splitCh '/' name).getLast?.getD []).contains '.'
+
+/-- `regex format ARG [--check]`: a rule argument addresses its assembly file, anything else is the name of an include
+    file (`.ra` added when the argument has no extension at all). `none`: an argument with a path separator (the
+    cleaning of `path.Join` is not modelled). -/
+def formatPathOf (arg : Bytes) : Bytes :=
+  let filename := if noExt arg then arg ++ b!".ra" else arg
+  match Update.parseRuleId filename with
+  | .ok ra => assemblyPath ra.fileName
+  | .error _ => b!"regex-assembly/include/" ++ filename
+
+/-- `processFile` on one path of the tree -/
+def formatAt (check : Bool) (lint : Bytes → Bool) (t : Tree) (p : Bytes) : RunResult :=
+  match lookup p t with
+  | none => ⟨false, t, []⟩
+  | some b =>
+    if !parseable b then ⟨false, t, []⟩
+    else ⟨(formatOne check (lint p) b).2, setFile p (formatOne check (lint p) b).1 t, []⟩
+
+def formatCmd (check : Bool) (lint : Bytes → Bool) (t : Tree) (arg : Bytes) : Option RunResult :=
+  if arg.contains '/' then none else some (formatAt check lint t (formatPathOf arg))
+
 /-- `RULE_ID | --all`: exactly one of the two, at most one argument (the `Args` validators of cmd/*.go) -/
 def oneTarget (inv : Invocation) : Bool :=
   (inv.all && inv.args.isEmpty) || (!inv.all && inv.args.length == 1)
@@ -340,7 +363,9 @@ where
     | .format =>
       if !oneTarget inv then some fail
       else if inv.all then let r := formatAll inv.check lint t; some ⟨r.ok, r.tree, []⟩
-      else if inv.args == [b!"-"] then some fail else none
+      else match inv.args with
+        | [arg] => if arg == b!"-" then some fail else formatCmd inv.check lint t arg
+        | _ => some fail
     | .renumber =>
       if !oneTarget inv then some fail
       else if inv.all then let r := renumberAll inv.check t; some ⟨r.ok, r.tree, []⟩
